@@ -100,7 +100,7 @@ CLAIMED.update({
 })
 CLAIMED.update({
  "C19": dict(level="model_checking", design="4.19",
-   text="Per pcap file (every tuple of <= 3 (thorough 4) record sizes around the 8 KiB buffer x both magics x 3 snaplens) an explicit-state breadth-first search over call sequences of pcap_read_next / pcap_read_all(f[, n]) against a Vec<Record> + cursor model (canonical state = cursor, merged states' futures cross-checked, each transition replayed on a freshly opened handle, packets compared field by field); write of all packets with pcap_write and read-back; a three-record file cut at every byte offset and 40 single-field header corruptions: exactly the records before the damage, then null or an error object, never a crash.",
+   text="Per pcap file (every tuple of <= 3 (thorough 5) record sizes around the 8 KiB buffer x both magics x 3 snaplens) an explicit-state breadth-first search over call sequences of pcap_read_next / pcap_read_all(f[, n]) against a Vec<Record> + cursor model (canonical state = cursor, merged states' futures cross-checked, each transition replayed on a freshly opened handle, packets compared field by field); write of all packets with pcap_write and read-back; a three-record file cut at every byte offset and 40 single-field header corruptions: exactly the records before the damage, then null or an error object, never a crash.",
    note="Byte-swapped files are outside the statement. pcap_read_all on a damaged file may answer with an error object.",
    technique="explicit-state BFS over read histories with a cursor model + exhaustive truncation/corruption enumeration"),
 })
@@ -110,7 +110,7 @@ CLAIMED.update({
    note="The chunk schedule is owned by the harness (feeder waits for an empty pipe), so short reads are deterministic. Terminal input and sockets are not covered.",
    technique="explicit-state BFS over read histories with a cursor model + exhaustive enumeration of pipe chunk schedules and write sequences"),
  "C22": dict(level="fault_enumeration", design="4.22",
-   text="Fault alphabet (ENOENT, EISDIR at open or at the first read, EEXIST under mode x, ENOSPC via /dev/full at flush or when the 8 KiB buffer spills, ENOTDIR, empty / 10-byte / garbage / half-record pcap content) x 9 openers (open and pcap_open in every mode) x every sequence of <= 2 (thorough 3) follow-up calls appropriate to the handle, each as a script through the real compiler and VM: the script must reach its end with no runtime error or panic, every call that meets the failure must return a value with is_error true and every other call must not; pcap_stream(stdin) with 5 bad inputs and write/flush on the stdout handle with standard output on /dev/full through the binary.",
+   text="Fault alphabet (ENOENT, EISDIR at open or at the first read, EEXIST under mode x, ENOSPC via /dev/full at flush or when the 8 KiB buffer spills, ENOTDIR, empty / 10-byte / garbage / half-record pcap content) x 9 openers (open and pcap_open in every mode) x every sequence of <= 2 (thorough 4) follow-up calls appropriate to the handle, each as a script through the real compiler and VM: the script must reach its end with no runtime error or panic, every call that meets the failure must return a value with is_error true and every other call must not; pcap_stream(stdin) with 5 bad inputs and write/flush on the stdout handle with standard output on /dev/full through the binary.",
    note="EACCES cannot be provoked (the sandbox runs as root). Argument-kind misuse is C11's. The harness tracks the pending byte count of the 8 KiB write buffer to know which call hits ENOSPC.",
    technique="exhaustive enumeration of fault x call-sequence combinations run through the real VM"),
 })
